@@ -619,7 +619,7 @@ def probe_row(op, kind, cat, impl, node_path):
     paths = [list(p) for p in impl.get("shared_paths", [])]
     node_shared = node_path in paths
     below = _descendant_shared(paths, node_path)
-    leaf_site = kind in ("any", "owner", "document", "mapping", "names", "required", "enumValues", "default", "schema",
+    leaf_site = kind in ("any", "owner", "misfit", "document", "mapping", "names", "required", "enumValues", "default", "schema",
                          "fieldState")
     is_input = op in ("construct", "setattr", "deserialize", "derive")
     aliased = node_shared or (leaf_site and kind not in ("any",) and below)
@@ -638,7 +638,7 @@ def mode_of_row(op, kind, row):
     if row["returns"] == "raises":
         return "error"
     is_input = op in ("construct", "setattr", "deserialize", "derive")
-    leaf = kind in ("any", "owner", "document", "mapping", "names", "required", "enumValues", "default", "schema",
+    leaf = kind in ("any", "owner", "misfit", "document", "mapping", "names", "required", "enumValues", "default", "schema",
                     "fieldState")
     if is_input:
         return "alias" if row["retainsArg"] else "shallow" if row["shallow"] else "deep" if leaf or row.get("deep") else "rebuild"
